@@ -32,6 +32,8 @@ open Unyt Unyt.Ufunc
 /-! ## §1 a generic memo table -/
 
 /-- a memo in front of a block `blk : I → V` -/
+abbrev Store (KeyT V : Type) := List (KeyT × V)
+
 structure MemoSem (I KeyT V : Type) where
   /-- the key an input is filed under; `none` = this input is never memoised -/
   key : I → Option KeyT
@@ -39,10 +41,8 @@ structure MemoSem (I KeyT V : Type) where
   keq : KeyT → KeyT → Bool
   /-- results that reach the store statement (an exception or an early `return` never does) -/
   storable : V → Bool
-  /-- the table is flushed when it holds this many entries -/
-  maxsize : Nat
-
-abbrev Store (KeyT V : Type) := List (KeyT × V)
+  /-- what is kept when room is made for a new entry (a flush when full, `lru_cache`'s eviction, …) -/
+  evict : Store KeyT V → Store KeyT V
 
 section
 variable {I KeyT V : Type}
@@ -59,7 +59,7 @@ def MemoSem.step (M : MemoSem I KeyT V) (blk : I → V) (st : Store KeyT V) (x :
     | some v => (st, v)
     | none =>
       let v := blk x
-      if M.storable v then ((k, v) :: (if st.length ≥ M.maxsize then [] else st), v) else (st, v)
+      if M.storable v then ((k, v) :: M.evict st, v) else (st, v)
 
 end
 
@@ -83,6 +83,8 @@ def Field.ofName (s : String) : Field :=
 inductive Block
   /-- array.py "if not u0.same_dimensions_as(u1): …" — `Ufunc.commensurate` -/
   | check
+  /-- the unit rule `unit_operator(u0, u1)` (array.py `_unit_rule_cache`) — `Ufunc.applyRule2` -/
+  | rule
   /-- anything else: not modelled (an obligation fails when one appears) -/
   | unmodelled
 deriving DecidableEq, Repr, Inhabited
@@ -98,27 +100,42 @@ deriving Repr, Inhabited
     adoption) and both units -/
 def checkReads : List Field := [.rule, .ufunc, .operand0, .operand1, .unit0, .unit1]
 
+/-- everything `Ufunc.applyRule2` reads: which rule, and the two units -/
+def ruleReads : List Field := [.rule, .unit0, .unit1]
+
 /-- the key mentions everything the block reads -/
 def Memo.sound (m : Memo) : Bool :=
-  m.block == .check && checkReads.all fun f => m.key.contains f
+  match m.block with
+  | .check => checkReads.all fun f => m.key.contains f
+  | .rule => ruleReads.all fun f => m.key.contains f
+  | .unmodelled => false
 
-/-- the process-wide state of the dispatcher as the model knows it: at most one memo on the check block -/
+/-- the process-wide state of the dispatcher as the model knows it: at most one memo on the check
+    block and one on the unit rule -/
 structure Cfg where
   check : Option Memo := none
+  rule : Option Memo := none
 deriving Repr, Inhabited
 
 def Cfg.sound (cfg : Cfg) : Bool :=
-  match cfg.check with
-  | none => true
-  | some m => m.sound
+  (match cfg.check with
+   | none => true
+   | some m => m.block == .check && m.sound)
+  && (match cfg.rule with
+   | none => true
+   | some m => m.block == .rule && m.sound)
 
 /-- configuration from the regenerated rows `(name, block, key fields, maxsize)`; `none` when a row
     is of a kind the model has no place for (two memos on one block, a memo on another block) -/
-def Cfg.ofRows (rows : List (String × String × List String × Nat)) : Option Cfg :=
-  match rows with
+def Cfg.ofRows : List (String × String × List String × Nat) → Option Cfg
   | [] => some {}
-  | [(n, "check", ks, mx)] => some { check := some ⟨n, .check, ks.map Field.ofName, mx⟩ }
-  | _ => none
+  | (n, b, ks, mx) :: rest =>
+    match Cfg.ofRows rest with
+    | none => none
+    | some cfg =>
+      if b == "check" && cfg.check.isNone then some { cfg with check := some ⟨n, .check, ks.map Field.ofName, mx⟩ }
+      else if b == "rule" && cfg.rule.isNone then some { cfg with rule := some ⟨n, .rule, ks.map Field.ofName, mx⟩ }
+      else none
 
 section
 variable {K : Type}
@@ -191,7 +208,28 @@ def Memo.sem (m : Memo) (feq : FVal K → FVal K → Bool) : MemoSem (CheckIn K)
   key := fun x => some x
   keq := fun a b => m.key.all fun f => feq (f.proj a) (f.proj b)
   storable := fun v => match v with | .pass _ _ _ => true | _ => false
-  maxsize := m.maxsize
+  evict := fun st => if st.length ≥ m.maxsize then [] else st
+
+/-- the inputs of the unit-rule block -/
+structure RuleIn (K : Type) where
+  rule : Rule
+  u0 : UnitR K
+  u1 : UnitR K
+
+def Field.projR : Field → RuleIn K → FVal K
+  | .rule, x => .rule x.rule
+  | .unit0, x => .unit x.u0
+  | .unit1, x => .unit x.u1
+  | _, _ => .none
+
+/-- the memo of the unit rules (`functools.lru_cache`): a raised exception is not stored; when full
+    the oldest entry goes (the recency update on a hit is not modelled: any sub-table keeps the invariant) -/
+def Memo.semR (m : Memo) (feq : FVal K → FVal K → Bool) :
+    MemoSem (RuleIn K) (RuleIn K) (Except Err (K × Option (UnitV K))) where
+  key := fun x => some x
+  keq := fun a b => m.key.all fun f => feq (f.projR a) (f.projR b)
+  storable := fun v => match v with | .ok _ => true | .error _ => false
+  evict := fun st => if st.length ≥ m.maxsize then st.dropLast else st
 
 variable [Add K] [Sub K] [Mul K] [Div K] [OfNat K 0] [OfNat K 1] [BEq K] [RPow K]
 
@@ -207,7 +245,24 @@ def checkM (cfg : Cfg) (feq : FVal K → FVal K → Bool) (C : Ctx K) (st : Chec
   | none => (st, checkBlk C x)
   | some m => (m.sem feq).step (checkBlk C) st x
 
-/-! ## §3 the dispatcher with the memo threaded through -/
+/-- the unit-rule block as a function of its inputs -/
+def ruleBlk (C : Ctx K) (x : RuleIn K) : Except Err (K × Option (UnitV K)) := applyRule2 C x.rule x.u0 x.u1
+
+abbrev RuleStore (K : Type) := Store (RuleIn K) (Except Err (K × Option (UnitV K)))
+
+/-- the unit rule behind the configured memo -/
+def ruleM (cfg : Cfg) (feq : FVal K → FVal K → Bool) (C : Ctx K) (st : RuleStore K) (x : RuleIn K) :
+    RuleStore K × Except Err (K × Option (UnitV K)) :=
+  match cfg.rule with
+  | none => (st, ruleBlk C x)
+  | some m => (m.semR feq).step (ruleBlk C) st x
+
+/-- the process-wide state -/
+structure St (K : Type) where
+  check : CheckStore K := []
+  rule : RuleStore K := []
+
+/-! ## §3 the dispatcher with the memos threaded through -/
 
 /-- floor division of operands of different dimensions is the plain quotient rule -/
 def effRule (rule : Rule) (u0 u1 : UnitR K) : Rule :=
@@ -218,10 +273,11 @@ def kRefusal (rule : Rule) (u0 u1 : UnitR K) : Bool :=
   rule == .preserve && isTemperature u0.v && u1.v.offset != 0 && u0.v.offset == 0
       && (u0.repr == "K" || u0.repr == "R")
 
-/-- `Ufunc.stdBinary` with the verdict of the check block as a parameter (used only when the rule
-    enters the rescale block) -/
+/-- `Ufunc.stdBinary` with the verdict of the check block (used only when the rule enters the rescale
+    block) and the unit rule (of the effective rule) as parameters -/
 def stdBinaryV (C : Ctx K) (c : Call K) (rule : Rule) (i0 i1 : Operand K)
-    (u0r u1r : Option (UnitR K)) (eff0 : List (Effect K)) (chkv : Check K) : Run K :=
+    (u0r u1r : Option (UnitR K)) (eff0 : List (Effect K)) (chkv : Check K)
+    (rulev : UnitR K → UnitR K → Except Err (K × Option (UnitV K))) : Run K :=
   let u0 : UnitR K := defaultUnit u0r
   let u1 : UnitR K := defaultUnit u1r
   if rule == .preserve && isTemperature u0.v && u1.v.offset != 0 && u0.v.offset == 0
@@ -248,7 +304,7 @@ def stdBinaryV (C : Ctx K) (c : Call K) (rule : Rule) (i0 i1 : Operand K)
       match cv with
       | .error e => ⟨eff0, .error e⟩
       | .ok cvo =>
-        match applyRule2 C rule u0 u1 with
+        match rulev u0 u1 with
         | .error e => ⟨eff0, .error e⟩
         | .ok (mul, unit) =>
           let effR := eff0 ++ prepOut C.T c.ufunc c.out
@@ -269,21 +325,39 @@ def stdBinaryV (C : Ctx K) (c : Call K) (rule : Rule) (i0 i1 : Operand K)
 def checkInOf (c : Call K) (rule : Rule) (i0 i1 : Operand K) (u0r u1r : Option (UnitR K)) : CheckIn K :=
   ⟨effRule rule (defaultUnit u0r) (defaultUnit u1r), c.ufunc, i0, i1, defaultUnit u0r, defaultUnit u1r⟩
 
-/-- `stdBinary` in an interpreter whose check block sits behind the configured memo: the memo is
-    consulted exactly when the real code reaches the block (no K/R refusal, a rescaling rule, and —
-    as in the code — only when the units differ) -/
-def stdBinaryM (cfg : Cfg) (feq : FVal K → FVal K → Bool) (C : Ctx K) (st : CheckStore K) (c : Call K)
-    (rule : Rule) (i0 i1 : Operand K) (u0r u1r : Option (UnitR K)) (eff0 : List (Effect K)) :
-    CheckStore K × Run K :=
-  let x := checkInOf c rule i0 i1 u0r u1r
-  if kRefusal rule x.u0 x.u1 || !(x.rule.rescales) || C.ueq x.u0.v x.u1.v then
-    (st, stdBinaryV C c rule i0 i1 u0r u1r eff0 (checkBlk C x))
-  else
-    let r := checkM cfg feq C st x
-    (r.1, stdBinaryV C c rule i0 i1 u0r u1r eff0 r.2)
+/-- did the conversion of the second operand raise (then the unit rule is never called) -/
+def convertFails (C : Ctx K) (rule : Rule) (a b : UnitR K) (conv : Bool) (d1 : Data) : Bool :=
+  conv && (match convertSecond C rule a b d1 with | .error _ => true | .ok _ => false)
 
-def binaryPathM (cfg : Cfg) (feq : FVal K → FVal K → Bool) (C : Ctx K) (st : CheckStore K) (c : Call K)
-    (i0 i1 : Operand K) (eff0 : List (Effect K)) : CheckStore K × Run K :=
+/-- the table of the unit rules after a call whose (effective) verdict is `chk`: the rule is looked up
+    only when the call gets as far as `unit_operator(u0, u1)` -/
+def ruleStoreAfter (cfg : Cfg) (feq : FVal K → FVal K → Bool) (C : Ctx K) (st : RuleStore K) (rule : Rule)
+    (d1 : Data) (chk : Check K) : RuleStore K :=
+  match chk with
+  | .pass a b conv =>
+    if convertFails C rule a b conv d1 then st else (ruleM cfg feq C st ⟨rule, a, b⟩).1
+  | _ => st
+
+/-- `stdBinary` in an interpreter whose check block and unit rules sit behind the configured memos:
+    the check memo is consulted exactly when the real code reaches the block (no K/R refusal, a
+    rescaling rule, and — as in the code — only when the units differ); the rule memo when the call
+    gets as far as `unit_operator(u0, u1)` -/
+def stdBinaryM (cfg : Cfg) (feq : FVal K → FVal K → Bool) (C : Ctx K) (st : St K) (c : Call K)
+    (rule : Rule) (i0 i1 : Operand K) (u0r u1r : Option (UnitR K)) (eff0 : List (Effect K)) :
+    St K × Run K :=
+  let x := checkInOf c rule i0 i1 u0r u1r
+  if kRefusal rule x.u0 x.u1 then
+    (st, stdBinaryV C c rule i0 i1 u0r u1r eff0 (checkBlk C x) (fun a b => ruleBlk C ⟨x.rule, a, b⟩))
+  else
+    let r1 : CheckStore K × Check K :=
+      if !(x.rule.rescales) || C.ueq x.u0.v x.u1.v then (st.check, checkBlk C x) else checkM cfg feq C st.check x
+    let chk : Check K := if x.rule.rescales then r1.2 else .pass x.u0 x.u1 false
+    let rs : RuleStore K := ruleStoreAfter cfg feq C st.rule x.rule i1.data chk
+    (⟨r1.1, rs⟩,
+     stdBinaryV C c rule i0 i1 u0r u1r eff0 r1.2 (fun a b => (ruleM cfg feq C st.rule ⟨x.rule, a, b⟩).2))
+
+def binaryPathM (cfg : Cfg) (feq : FVal K → FVal K → Bool) (C : Ctx K) (st : St K) (c : Call K)
+    (i0 i1 : Operand K) (eff0 : List (Effect K)) : St K × Run K :=
   match coerce C.ueq i0 with
   | .error e => (st, ⟨eff0, .error e⟩)
   | .ok c0 =>
@@ -299,21 +373,21 @@ def binaryPathM (cfg : Cfg) (feq : FVal K → FVal K → Bool) (C : Ctx K) (st :
         | some rule => stdBinaryM cfg feq C st c rule i0 i1 u0r u1r eff0
 
 /-- `unyt_array.__array_ufunc__` in an interpreter with process-wide state `st` -/
-def dispatchM (cfg : Cfg) (feq : FVal K → FVal K → Bool) (C : Ctx K) (st : CheckStore K) (c : Call K) :
-    CheckStore K × Run K :=
+def dispatchM (cfg : Cfg) (feq : FVal K → FVal K → Bool) (C : Ctx K) (st : St K) (c : Call K) :
+    St K × Run K :=
   match c.inputs with
   | [i0, i1] => binaryPathM cfg feq C st c i0 i1 []
   | _ => (st, dispatch C c)
 
 /-- the state after a list of calls -/
-def stateAfter (cfg : Cfg) (feq : FVal K → FVal K → Bool) (C : Ctx K) (st : CheckStore K) :
-    List (Call K) → CheckStore K
+def stateAfter (cfg : Cfg) (feq : FVal K → FVal K → Bool) (C : Ctx K) (st : St K) :
+    List (Call K) → St K
   | [] => st
   | c :: rest => stateAfter cfg feq C (dispatchM cfg feq C st c).1 rest
 
 /-- a fresh interpreter, the calls of `history`, then `c` -/
 def runHistory (cfg : Cfg) (feq : FVal K → FVal K → Bool) (C : Ctx K) (history : List (Call K)) (c : Call K) : Run K :=
-  (dispatchM cfg feq C (stateAfter cfg feq C [] history) c).2
+  (dispatchM cfg feq C (stateAfter cfg feq C {} history) c).2
 
 end
 
